@@ -284,6 +284,69 @@ func (c *Chan[T]) Recv2() (T, bool) {
 	return zero, false
 }
 
+// TryRecv2 mirrors `select { case v, ok := <-c: ...; default: ... }`: got reports whether the
+// receive case was taken (a value was buffered, or the channel is closed).
+func (c *Chan[T]) TryRecv2() (v T, ok bool, got bool) {
+	s := current
+	if c.real != nil {
+		select {
+		case v, ok = <-c.real:
+			return v, ok, true
+		default:
+			return v, false, false
+		}
+	}
+	if s == nil {
+		panic("vsync: modelled channel used outside the scheduler")
+	}
+	t := s.self()
+	s.yield(t, nil, "chan try-recv")
+	if len(c.buf) > 0 {
+		v = c.buf[0]
+		t.acquire(c.clocks[0])
+		c.buf = c.buf[1:]
+		c.clocks = c.clocks[1:]
+		s.post(t, "after chan try-recv")
+		return v, true, true
+	}
+	if c.closed {
+		t.acquire(c.cclock)
+		return v, false, true
+	}
+	return v, false, false
+}
+
+// TrySend mirrors `select { case c <- v: ...; default: ... }`.
+func (c *Chan[T]) TrySend(v T) bool {
+	s := current
+	if c.real != nil {
+		select {
+		case c.real <- v:
+			return true
+		default:
+			return false
+		}
+	}
+	if s == nil {
+		panic("vsync: modelled channel used outside the scheduler")
+	}
+	t := s.self()
+	s.yield(t, nil, "chan try-send")
+	if c.closed {
+		panic("send on closed channel")
+	}
+	if len(c.buf) >= c.cap {
+		return false
+	}
+	var ck []int
+	join(&ck, t.vc)
+	t.tick()
+	c.buf = append(c.buf, v)
+	c.clocks = append(c.clocks, ck)
+	s.post(t, "after chan try-send")
+	return true
+}
+
 // Close mirrors close(c).
 func (c *Chan[T]) Close() {
 	s := current
